@@ -548,7 +548,8 @@ func runComplex(c *mon.Case) {
 
 func Spec() *mon.Spec {
 	return &mon.Spec{
-		ID: "C09", Level: "exploration",
+		ID:            "C09",
+		SpinViolation: true, Level: "exploration",
 		Rule: "case = a pool of 12 values (clusters of numbers around 2^53, 2^63, 2^64, 2^1024, 0 in all four representations plus ±0, ±Inf, NaN; strings with shared prefixes and invalid UTF-8; lists over a few atoms so that equal lists, prefixes and late differences are frequent, some built by slicing; small maps incl. NaN values; $nil, bools, closures, builtin functions, a namespace; 1/5 of the entries are differently constructed copies of other entries). For all 144 ordered pairs vals.Equal, vals.Cmp and vals.CmpTotal are compared with reference relations written from the documentation (eq = same type and value; compare = per-type orders with numbers by exact rational value, NaN lowest; &total = types in the order observed at process start, then the documented order, 0 for unordered types), and for all 1728 ordered triples the laws are checked on the real results: eq reflexive (unless NaN inside) / symmetric / transitive, eq ⇒ compare 0, compare antisymmetric and transitive (incl. strictness and comparability), &total never raises, antisymmetric, transitive, never 0 across types, equal to compare where that is defined. Every 8th pool also goes through the builtins eq, not-eq, compare, compare &total, < <= == > >= !=. Non-trivial = pool other than 'mixed', or containing two distinct entries that are eq; distinct by the pool's values.",
 		Assumptions: []string{
 			"the order of types under &total is unspecified; it is observed once per process on one representative per type and then required to stay the same",
